@@ -110,7 +110,7 @@ Proof.
   - (* Invoke *)
     destruct (invoke_progress im p clo c e st v tag t args R LC) as (e0 & x & tn & cls & cl & e1 & SL & IDX & FC & BD).
     rewrite SL, IDX, FC, BD in G |- *.
-    destruct (sim_invoke im p clo ENC c e st v tag t args cd lc lc' pc e0 x tn cls [] cl e1 R SL IDX FC BD LC CS (proj1 PL))
+    destruct (sim_invoke im p clo c e st v tag t args cd lc lc' pc e0 x tn cls [] cl e1 R SL IDX FC BD LC CS (proj1 PL))
       as (pcb & lcb & cb & lcb' & s' & X & CSb & PLb & LCb & FRb & R' & _).
     eapply star_rfin; eauto.
   - (* Literal *)
